@@ -94,3 +94,179 @@ Definition run (c : case) : verdict :=
     (* 4: the file a key is written to is read back under that key (C15_file_name_of_path: every key) *)
     flag 4 (seqb (o_path_key c) K) in
   V corr prop [] (dom0 && negb (seqb K D) && negb (sempty D)).
+
+(* ====================================================================================================== *)
+(* LSP stage: one session of a real `iwes::router::server::Server` on a generated library with notes in
+   several directories: `textDocument/completion` requests from notes in different directories, didChange
+   notifications and `refactor.extract.section` code actions, in the order given.  What is observed is
+   what the editor gets: per completion request the label and the inserted text of every offered item,
+   per extraction the note that is created and the link lines left in the note the section came from. *)
+
+(* the first occurrence of [p] in [s]: the text before it and the text after it *)
+Fixpoint split_once_aux (p s acc : string) : option (string * string) :=
+  match strip_prefix p s with
+  | Some r => Some (srev acc, r)
+  | None => match s with
+            | EmptyString => None
+            | String c r => split_once_aux p r (String c acc)
+            end
+  end.
+Definition split_once (p s : string) : option (string * string) := split_once_aux p s EmptyString.
+
+(* `[text](url)`: the text up to the first `](`, the url up to the closing parenthesis at the end *)
+Definition parse_link (s : string) : option (string * string) :=
+  match strip_prefix "[" s with
+  | None => None
+  | Some r =>
+      match split_once "](" r with
+      | None => None
+      | Some (t, u) => match strip_suffix ")" u with Some u' => Some (t, u') | None => None end
+      end
+  end.
+
+Definition write_link (text url : string) : string := "[" +++ text +++ "](" +++ url +++ ")".
+
+(* the library as the editor knows it: key and title (None: the note does not start with a heading) *)
+Definition lib := list (string * option string).
+
+Fixpoint lib_title (l : lib) (k : string) : option (option string) :=
+  match l with
+  | [] => None
+  | (k', t) :: r => if String.eqb k' k then Some t else lib_title r k
+  end.
+
+(* didChange: the note gets the new text (title); a note that is not there yet is added *)
+Fixpoint lib_update (l : lib) (k : string) (t : option string) : lib :=
+  match l with
+  | [] => [(k, t)]
+  | (k', t') :: r => if String.eqb k' k then (k, t) :: r else (k', t') :: lib_update r k t
+  end.
+
+(* Graph::get_ref_text(..).unwrap_or_default() *)
+Definition title_text (t : option string) : string := match t with Some x => x | None => "" end.
+
+(* U+1F517 and a space: the label prefix of a link completion (extensions.rs:288) *)
+Definition LINK_LABEL : string := sb [240; 159; 148; 151; 32].
+
+(* server.rs:188-206 handle_link_completion + extensions.rs:274-303 to_link / to_completion: one item per
+   key of the graph; the url is written for the directory of the ASKING note, by `ref_url(.., "")`
+   whatever extension is configured *)
+Definition completion_item (asking : string) (kt : string * option string) : string * string :=
+  let t := title_text (snd kt) in
+  (LINK_LABEL +++ t, write_link t (ref_url (to_rel_link_url (fst kt) (key_parent asking)) "")).
+Definition completion_items (l : lib) (asking : string) : list (string * string) :=
+  map (completion_item asking) l.
+
+Definition item_eqb (a b : string * string) : bool := seqb (fst a) (fst b) && seqb (snd a) (snd b).
+Definition item_in (x : string * string) (l : list (string * string)) : bool := existsb (item_eqb x) l.
+(* the same items, in whatever order (iwe sorts by label, ties in hash-map order) *)
+Definition same_items (a b : list (string * string)) : bool :=
+  Nat.eqb (length a) (length b) && forallb (fun x => item_in x b) a && forallb (fun x => item_in x a) b.
+
+(* the note an offered `[text](url)` leads to when it is inserted in the asking note *)
+Definition item_target (asking : string) (ins : string) : option (string * string) :=
+  match parse_link ins with
+  | Some (t, u) => Some (t, from_rel_link_url u (key_parent asking))
+  | None => None
+  end.
+
+(* sub-property 5 for one answer: every offered link, resolved from the asking note's directory, is a
+   note of the library whose title is the link text, and every note of the library is offered *)
+Definition completion_ok (l : lib) (asking : string) (items : list (string * string)) : bool :=
+  forallb (fun it => match item_target asking (snd it) with
+                     | Some (t, k) => match lib_title l k with
+                                      | Some title => seqb (title_text title) t
+                                      | None => false
+                                      end
+                     | None => false
+                     end) items &&
+  forallb (fun kt => existsb (fun it => match item_target asking (snd it) with
+                                        | Some (_, k) => seqb k (fst kt)
+                                        | None => false
+                                        end) items) l.
+
+(* refactor.extract.section (action.rs:332-366): the new note is `random_key(parent of the note)` - with
+   sequential ids the number [id] of keys + 1, resolved in the note's directory - and the section is
+   replaced by a reference to it, written from the note's directory with the configured extension *)
+Definition extract_new_key (src id : string) : string := from_rel_link_url id (key_parent src).
+Definition extract_link (ext src id title : string) : string :=
+  write_link title (ref_url (to_rel_link_url (extract_new_key src id) (key_parent src)) ext).
+
+(* sub-property 6: the reference left in the note resolves, from the note's directory, to the created note *)
+Definition extract_ok (src title created : string) (links : list string) : bool :=
+  negb (Nat.eqb (length links) 0) &&
+  forallb (fun ln => match item_target src ln with
+                     | Some (t, k) => seqb k created && seqb t title
+                     | None => false
+                     end) links.
+
+Inductive step :=
+| SComplete (asking : string) (obs : option (list (string * string)))     (* None: the handler panicked *)
+| SChange (key : string) (title : option string) (ok : bool)              (* ok: didChange returned *)
+| SExtract (src title id : string)                                        (* section title, sequential id *)
+           (obs : option (option (string * list string))).                (* panicked / not offered /
+                                                                             created note, link lines *)
+
+Record session := Session {
+  s_ext : string;            (* markdown.refs_extension *)
+  s_notes : lib;             (* the library the server is started on *)
+  s_started : bool;          (* Server::new returned *)
+  s_steps : list step
+}.
+
+Definition count_nat (n : nat) : N := N.of_nat n.
+
+(* per step: correspondence stages that differ, sub-properties that fail *)
+Fixpoint run_steps (ext : string) (l : lib) (steps : list step) : list N * list N :=
+  match steps with
+  | [] => ([], [])
+  | SComplete a obs :: r =>
+      let '(c, p) := run_steps ext l r in
+      match obs with
+      | None => (21 :: c, 5 :: p)
+      | Some items =>
+          (flag 21 (same_items (completion_items l a) items) ++ c,
+           flag 5 (completion_ok l a items) ++ p)
+      end
+  | SChange k t ok :: r =>
+      let '(c, p) := run_steps ext (lib_update l k t) r in
+      (flag 22 ok ++ c, p)
+  | SExtract src title id obs :: r =>
+      let '(c, p) := run_steps ext l r in
+      match obs with
+      | Some (Some (created, links)) =>
+          (flag 23 (seqb created (extract_new_key src id) &&
+                    list_eqb seqb links [extract_link ext src id title]) ++ c,
+           flag 6 (extract_ok src title created links) ++ p)
+      | _ => (23 :: c, 6 :: p)
+      end
+  end.
+
+Fixpoint dedup_N (l : list N) : list N :=
+  match l with
+  | [] => []
+  | x :: r => if existsb (N.eqb x) r then dedup_N r else x :: dedup_N r
+  end.
+
+Definition step_dir (s : step) : list string :=
+  match s with SComplete a _ => [key_parent a] | _ => [] end.
+Fixpoint distinct_strings (l : list string) : nat :=
+  match l with
+  | [] => 0
+  | x :: r => if existsb (seqb x) r then distinct_strings r else S (distinct_strings r)
+  end.
+
+(* non-trivial: completion is asked from two different directories in the one session, on a library
+   with notes in two directories *)
+Definition run_lsp (s : session) : verdict :=
+  let '(c, p) := if s_started s then run_steps (s_ext s) (s_notes s) (s_steps s) else ([21], [5]) in
+  V (dedup_N c) (dedup_N p) []
+    (Nat.leb 2 (distinct_strings (flat_map step_dir (s_steps s))) &&
+     Nat.leb 2 (distinct_strings (map (fun kt => key_parent (fst kt)) (s_notes s)))).
+
+Inductive acase :=
+| KeyApi (c : case)
+| Lsp (s : session).
+
+Definition run_all (a : acase) : verdict :=
+  match a with KeyApi c => run c | Lsp s => run_lsp s end.
